@@ -356,6 +356,9 @@ def check(ctx):
         raise core.Machinery("vacuity: outcome classes never enumerated: %s" % sorted(need - kinds))
     judge_wait(ctx, cases)
     check_wait_procs(ctx, 20000 if thorough else 2500)
+    if thorough:
+        from .. import apalache
+        apalache.discharge(ctx, "WaitCore")
 
 
 def main(prop, argv):
